@@ -244,7 +244,46 @@ fn exec_region(ctx: &mut Ctx, arena: &Arena, pl: &[u8], with_modules: bool) {
             Out::Val(it) => {
                 full_walk(ctx, it.clone(), pl, base as usize, &items, refuse, Seam::Raw);
                 // a fresh iterator reproduces the same walk
-                full_walk(ctx, it, pl, base as usize, &items, refuse, Seam::Raw);
+                full_walk(ctx, it.clone(), pl, base as usize, &items, refuse, Seam::Raw);
+                // adapters the iterator type may override: count, last, size_hint, skip, step_by, fold
+                if !refuse {
+                    let want: Vec<usize> = items.iter().map(|i| i.off).collect();
+                    let b0 = base as usize;
+                    let r = ctx.call("TagIter adapters", || {
+                        let off = |t: &multiboot2_common::DynSizedStructure<multiboot2::TagHeader>| t as *const _ as *const u8 as usize - b0;
+                        let cnt = it.clone().count();
+                        let last = it.clone().last().map(off);
+                        let (lo, hi) = it.clone().size_hint();
+                        let skips: Vec<Option<usize>> = (0..=want.len() + 1).map(|k| it.clone().skip(k).next().map(off)).collect();
+                        let step2: Vec<usize> = it.clone().step_by(2).map(off).collect();
+                        let folded: Vec<usize> = it.clone().fold(vec![], |mut v, t| { v.push(off(t)); v });
+                        let mut part = it.clone();
+                        let first = part.next().map(off);
+                        let (lo1, hi1) = part.size_hint();
+                        let rest = part.count();
+                        (cnt, last, lo, hi, skips, step2, folded, first, lo1, hi1, rest)
+                    });
+                    match r {
+                        Out::Panic => ctx.violation("c03/adapters/spurious-panic", || "count/last/size_hint/skip/step_by/fold panicked on a well-formed walk".into()),
+                        Out::Val((cnt, last, lo, hi, skips, step2, folded, first, lo1, hi1, rest)) => {
+                            ctx.ob("ad.cnt", cnt as u64);
+                            let n = want.len();
+                            let mut bad = vec![];
+                            if cnt != n { bad.push(format!("count() = {}", cnt)); }
+                            if last != want.last().copied() { bad.push(format!("last() = {:?}", last)); }
+                            if lo > n || hi.is_some_and(|h| h < n) { bad.push(format!("size_hint() = ({}, {:?})", lo, hi)); }
+                            let ws: Vec<Option<usize>> = (0..=n + 1).map(|k| want.get(k).copied()).collect();
+                            if skips != ws { bad.push(format!("skip(k).next() = {:?}", skips)); }
+                            if step2 != want.iter().copied().step_by(2).collect::<Vec<_>>() { bad.push(format!("step_by(2) = {:?}", step2)); }
+                            if folded != want { bad.push(format!("fold = {:?}", folded)); }
+                            if first != want.first().copied() || rest != n.saturating_sub(1) { bad.push(format!("next() = {:?} then count() = {}", first, rest)); }
+                            if lo1 > n.saturating_sub(1) || hi1.is_some_and(|h| h < n.saturating_sub(1)) { bad.push(format!("size_hint() after one item = ({}, {:?})", lo1, hi1)); }
+                            if !bad.is_empty() {
+                                ctx.violation("c03/adapters", || format!("reference walk has {} tags at offsets {:?}; {}", n, want, bad.join("; ")));
+                            }
+                        }
+                    }
+                }
             }
             Out::Panic => ctx.violation("c03/new-panic", || "TagIter::new panicked on an 8-aligned payload".into()),
         }
@@ -467,6 +506,48 @@ fn run(ctx: &mut Ctx) {
                     || J::obj().set("body", "many-modules").set("tags", n).set("pattern_code", code).set("period", period).set("payload_len", pl.len()),
                     |ctx| exec_region(ctx, &big, &pl, true),
                 );
+            }
+        }
+    }
+    // contents that look like structure: tag payloads made of end-tag and tag-header images
+    ctx.bound("lookalike_payloads", "one or two tags whose payload consists of 1..=3 eight-byte images over {end tag (0,8), (1,8), (3,16), (0,0)}, wrapped in type {1, 3, 0x1337}, alone / after a plain tag / before a plain tag, plus the final end tag: the walk must not take payload bytes for structure");
+    for k in 1..=3usize {
+        for code in 0..4usize.pow(k as u32) {
+            for typ in [1u32, 3, 0x1337] {
+                for shape in 0..3 {
+                    let mut t = vec![0u8; 8 + 8 * k];
+                    wr32(&mut t, 0, typ);
+                    wr32(&mut t, 4, (8 + 8 * k) as u32);
+                    for i in 0..k {
+                        let (a, b) = [(0u32, 8u32), (1, 8), (3, 16), (0, 0)][(code / 4usize.pow(i as u32)) % 4];
+                        wr32(&mut t, 8 + 8 * i, a);
+                        wr32(&mut t, 12 + 8 * i, b);
+                    }
+                    let plain = {
+                        let mut q = vec![0u8; 16];
+                        wr32(&mut q, 0, 2);
+                        wr32(&mut q, 4, 13);
+                        q[8..13].copy_from_slice(b"boot\0");
+                        q
+                    };
+                    let mut pl: Vec<u8> = vec![];
+                    match shape {
+                        0 => pl.extend(&t),
+                        1 => {
+                            pl.extend(&plain);
+                            pl.extend(&t);
+                        }
+                        _ => {
+                            pl.extend(&t);
+                            pl.extend(&plain);
+                        }
+                    }
+                    pl.extend_from_slice(&[0, 0, 0, 0, 8, 0, 0, 0]);
+                    ctx.leaf(
+                        || J::obj().set("body", "lookalike").set("images", k).set("code", code).set("wrapping_type", typ).set("shape", shape).set("payload", J::hex(&pl)),
+                        |ctx| exec_region(ctx, &big, &pl, true),
+                    );
+                }
             }
         }
     }
